@@ -7,6 +7,12 @@ Mirror of `_produce_net_changes` (schema name filter), `_autogen_for_tables` (ta
 reduced to the places where `run_name_filters` / `run_object_filters` are consulted and where an
 op is appended.  "Do two matched objects differ" is a parameter (`Cmp`).
 
+Object filters: every `run_object_filters(...)` call site is a *group* `(descriptor, ops)` - "if the
+filter accepts this descriptor, append these ops" - and every table-level call a `TGroup` that
+also guards everything done inside the table.  Which groups exist does not depend on any filter
+answer (in the Python no filter result feeds back into the iteration), so the diff is
+`candidates` (the iteration structure) followed by `runT` (the filter calls).
+
 Name filters are pure predicates, each consulted exactly once per reflected name at the point
 where the reflected collection is read; the model applies them up front (`visible`) - one
 `filter` per call site - and then runs the comparison (`diffCore`) on what is left, which is what
@@ -51,42 +57,48 @@ def tableVisible (nameF : NameDesc → Bool) (schemas : List (Option String)) (t
 def visible (nameF : NameDesc → Bool) (schemas : List (Option String)) (conn : List Tbl) : List Tbl :=
   (conn.filter (tableVisible nameF schemas)).map (visibleTbl nameF)
 
+/-! ## object filter call sites as guarded groups -/
+
+/-- one `run_object_filters` call and the ops appended when it returns true -/
+abbrev Group := ObjDesc × List Op
+/-- one table-level `run_object_filters` call and the calls made inside the table -/
+abbrev TGroup := ObjDesc × List Group
+
+def runGroups (objF : ObjDesc → Bool) (gs : List Group) : List Op :=
+  gs.flatMap (fun g => if objF g.1 then g.2 else [])
+
+def runT (objF : ObjDesc → Bool) (ts : List TGroup) : List Op :=
+  ts.flatMap (fun t => if objF t.1 then runGroups objF t.2 else [])
+
 /-! ## `_compare_indexes_and_uniques` -/
 
-def guard (objF : ObjDesc → Bool) (d : ObjDesc) (ops : List Op) : List Op :=
-  if objF d then ops else []
-
-/-- `obj_added` -/
-def objAdded (P : Cmp) (objF : ObjDesc → Bool) (k : Key) (inline : Bool) : Cons → List Op
+/-- `obj_added` (compare.py:629 index, :646 unique constraint) -/
+def objAdded (P : Cmp) (k : Key) (inline : Bool) : Cons → List Group
   | .idx i =>
-    guard objF ⟨some i.name, .index, false, false, k.1, k.2⟩
-      [⟨.createIndex, k.1, k.2, some i.name, i.sig⟩]
+    [(⟨some i.name, .index, false, false, k.1, k.2⟩, [⟨.createIndex, k.1, k.2, some i.name, i.sig⟩])]
   | .uq u =>
     if !P.supportsUq then []
     else if inline then []       -- is_create_table or is_drop_table
-    else guard objF ⟨u.name, .uniqueConstraint, false, false, k.1, k.2⟩
-      [⟨.addUq, k.1, k.2, u.name, u.sig⟩]
+    else [(⟨u.name, .uniqueConstraint, false, false, k.1, k.2⟩, [⟨.addUq, k.1, k.2, u.name, u.sig⟩])]
 
-/-- `obj_removed` -/
-def objRemoved (P : Cmp) (objF : ObjDesc → Bool) (k : Key) (inline : Bool) : Cons → List Op
+/-- `obj_removed` (compare.py:668 index, :678 unique constraint) -/
+def objRemoved (P : Cmp) (k : Key) (inline : Bool) : Cons → List Group
   | .idx i =>
     if i.unique && !P.supportsUq then []
-    else guard objF ⟨some i.name, .index, true, false, k.1, k.2⟩
-      [⟨.dropIndex, k.1, k.2, some i.name, i.sig⟩]
+    else [(⟨some i.name, .index, true, false, k.1, k.2⟩, [⟨.dropIndex, k.1, k.2, some i.name, i.sig⟩])]
   | .uq u =>
     if inline then []
-    else guard objF ⟨u.name, .uniqueConstraint, true, false, k.1, k.2⟩
-      [⟨.dropUq, k.1, k.2, u.name, u.sig⟩]
+    else [(⟨u.name, .uniqueConstraint, true, false, k.1, k.2⟩, [⟨.dropUq, k.1, k.2, u.name, u.sig⟩])]
 
-/-- `obj_changed(old, new, msg)`: **one** filter call, for the metadata object with
-`compare_to` = the reflected one -/
-def objChanged (objF : ObjDesc → Bool) (k : Key) : Cons → Cons → List Op
+/-- `obj_changed(old, new, msg)` (compare.py:700, :711): **one** filter call, for the metadata
+object with `compare_to` = the reflected one, guarding the drop and the create -/
+def objChanged (k : Key) : Cons → Cons → List Group
   | .idx old, .idx new =>
-    guard objF ⟨some new.name, .index, false, true, k.1, k.2⟩
-      [⟨.dropIndex, k.1, k.2, some old.name, old.sig⟩, ⟨.createIndex, k.1, k.2, some new.name, new.sig⟩]
+    [(⟨some new.name, .index, false, true, k.1, k.2⟩,
+      [⟨.dropIndex, k.1, k.2, some old.name, old.sig⟩, ⟨.createIndex, k.1, k.2, some new.name, new.sig⟩])]
   | .uq old, .uq new =>
-    guard objF ⟨new.name, .uniqueConstraint, false, true, k.1, k.2⟩
-      [⟨.dropUq, k.1, k.2, old.name, old.sig⟩, ⟨.addUq, k.1, k.2, new.name, new.sig⟩]
+    [(⟨new.name, .uniqueConstraint, false, true, k.1, k.2⟩,
+      [⟨.dropUq, k.1, k.2, old.name, old.sig⟩, ⟨.addUq, k.1, k.2, new.name, new.sig⟩])]
   | _, _ => []
 
 def consDiffer (P : Cmp) : Cons → Cons → Bool
@@ -94,9 +106,13 @@ def consDiffer (P : Cmp) : Cons → Cons → Bool
   | .uq c, .uq m => P.uqDiffer c m
   | _, _ => false
 
+/-- the entries of a name-keyed list that a Python dict built from it would hold: one per name -/
+def firsts (l : List (String × Cons)) : List (String × Cons) :=
+  l.filter (fun p => l.lookup p.1 == some p.2)
+
 /-- the three name loops and the unnamed-unique loop of `_compare_indexes_and_uniques`;
 `conn` is already name-filtered -/
-def cmpIdxUq (P : Cmp) (objF : ObjDesc → Bool) (k : Key) (conn md : Option Tbl) : List Op :=
+def cmpIdxUq (P : Cmp) (k : Key) (conn md : Option Tbl) : List Group :=
   let inline := conn.isNone || md.isNone
   -- "for DROP TABLE uniques are inline, don't need them"
   let connU : Option Tbl := if md.isNone then conn.map (fun c => { c with uqs := [] }) else conn
@@ -106,81 +122,88 @@ def cmpIdxUq (P : Cmp) (objF : ObjDesc → Bool) (k : Key) (conn md : Option Tbl
   let unnamedSigs := (mUqs.filter (fun u => u.name.isNone)).map (·.sig)
   let connUqSigs := ((connU.map (·.uqs)).getD []).map (·.sig)
   -- removed: names on the connection that the metadata does not have
-  let removed := cN.flatMap (fun (n, c) =>
-    if (mN.lookup n).isSome then []
-    else match c with
-      | .uq u => if unnamedSigs.contains u.sig then [] else objRemoved P objF k inline c
-      | .idx _ => objRemoved P objF k inline c)
+  let removed := (firsts cN).flatMap (fun p =>
+    if (mN.lookup p.1).isSome then []
+    else match p.2 with
+      | .uq u => if unnamedSigs.contains u.sig then [] else objRemoved P k inline p.2
+      | .idx _ => objRemoved P k inline p.2)
   -- existing: names on both sides
-  let existing := mN.flatMap (fun (n, m) =>
-    match cN.lookup n with
+  let existing := (firsts mN).flatMap (fun p =>
+    match cN.lookup p.1 with
     | none => []
     | some c =>
-      if c.isIdx != m.isIdx then objRemoved P objF k inline c ++ objAdded P objF k inline m
-      else if consDiffer P c m then objChanged objF k c m
+      if c.isIdx != p.2.isIdx then objRemoved P k inline c ++ objAdded P k inline p.2
+      else if consDiffer P c p.2 then objChanged k c p.2
       else [])
   -- added: names only in the metadata
-  let added := mN.flatMap (fun (n, m) =>
-    if (cN.lookup n).isSome then [] else objAdded P objF k inline m)
+  let added := (firsts mN).flatMap (fun p =>
+    if (cN.lookup p.1).isSome then [] else objAdded P k inline p.2)
   -- unnamed metadata unique constraints, matched by signature
   let unnamed := (mUqs.filter (fun u => u.name.isNone)).flatMap (fun u =>
-    if connUqSigs.contains u.sig then [] else objAdded P objF k inline (.uq u))
+    if connUqSigs.contains u.sig then [] else objAdded P k inline (.uq u))
   removed ++ existing ++ added ++ unnamed
 
-/-! ## `_compare_foreign_keys` (only for tables present on both sides) -/
+/-! ## `_compare_foreign_keys` (only for tables present on both sides; compare.py:1228, :1244) -/
 
-def cmpFks (objF : ObjDesc → Bool) (k : Key) (conn md : Tbl) : List Op :=
+def hasName (names : List String) : Option String → Bool
+  | some n => names.contains n
+  | none => false
+
+def cmpFks (k : Key) (conn md : Tbl) : List Group :=
   let cSigs := conn.fks.map (·.sig)
   let mSigs := md.fks.map (·.sig)
-  let hasName (names : List String) : Option String → Bool
-    | some n => names.contains n
-    | none => false
   let removed := conn.fks.flatMap (fun f =>
     if mSigs.contains f.sig then []
-    else guard objF ⟨f.name, .foreignKey, true, hasName (fkNames md) f.name, k.1, k.2⟩
-      [⟨.dropFk, k.1, k.2, f.name, f.sig⟩])
+    else [(⟨f.name, .foreignKey, true, hasName (fkNames md) f.name, k.1, k.2⟩,
+      [⟨.dropFk, k.1, k.2, f.name, f.sig⟩])])
   let added := md.fks.flatMap (fun f =>
     if cSigs.contains f.sig then []
-    else guard objF ⟨f.name, .foreignKey, false, hasName (fkNames conn) f.name, k.1, k.2⟩
-      [⟨.addFk, k.1, k.2, f.name, f.sig⟩])
+    else [(⟨f.name, .foreignKey, false, hasName (fkNames conn) f.name, k.1, k.2⟩,
+      [⟨.addFk, k.1, k.2, f.name, f.sig⟩])])
   removed ++ added
 
-/-! ## `_compare_columns` -/
+/-! ## `_compare_columns` (compare.py:392 added, :405 both sides, :427 removed) -/
 
-def colsAddedAltered (P : Cmp) (objF : ObjDesc → Bool) (k : Key) (conn md : Tbl) : List Op :=
-  (md.cols.filter (fun c => !conn.cols.contains c)).flatMap (fun c =>
-    guard objF ⟨some c, .column, false, false, k.1, k.2⟩ [⟨.addColumn, k.1, k.2, some c, ""⟩]) ++
-  (md.cols.filter (fun c => conn.cols.contains c)).flatMap (fun c =>
-    if !objF ⟨some c, .column, false, true, k.1, k.2⟩ then []
-    else if P.colDiffer k c then [⟨.alterColumn, k.1, k.2, some c, ""⟩] else [])
+def colsAddedAltered (P : Cmp) (k : Key) (conn md : Tbl) : List Group :=
+  (md.cols.filter (fun c => !conn.cols.contains c)).map (fun c =>
+    ((⟨some c, .column, false, false, k.1, k.2⟩ : ObjDesc), [(⟨.addColumn, k.1, k.2, some c, ""⟩ : Op)])) ++
+  (md.cols.filter (fun c => conn.cols.contains c)).map (fun c =>
+    ((⟨some c, .column, false, true, k.1, k.2⟩ : ObjDesc),
+      if P.colDiffer k c then [(⟨.alterColumn, k.1, k.2, some c, ""⟩ : Op)] else []))
 
-def colsRemoved (objF : ObjDesc → Bool) (k : Key) (conn md : Tbl) : List Op :=
-  (conn.cols.filter (fun c => !md.cols.contains c)).flatMap (fun c =>
-    guard objF ⟨some c, .column, true, false, k.1, k.2⟩ [⟨.dropColumn, k.1, k.2, some c, ""⟩])
+def colsRemoved (k : Key) (conn md : Tbl) : List Group :=
+  (conn.cols.filter (fun c => !md.cols.contains c)).map (fun c =>
+    ((⟨some c, .column, true, false, k.1, k.2⟩ : ObjDesc), [(⟨.dropColumn, k.1, k.2, some c, ""⟩ : Op)]))
 
-/-! ## `_compare_tables` -/
+/-! ## `_compare_tables` (compare.py:183 added, :220 removed, :258 both sides) -/
 
-def tableAdded (P : Cmp) (objF : ObjDesc → Bool) (m : Tbl) : List Op :=
-  guard objF ⟨some m.name, .table, false, false, m.schema, m.name⟩
-    (⟨.createTable, m.schema, m.name, some m.name, ""⟩ :: cmpIdxUq P objF m.key none (some m))
+def tableAdded (P : Cmp) (m : Tbl) : TGroup :=
+  let td : ObjDesc := ⟨some m.name, .table, false, false, m.schema, m.name⟩
+  (td, (td, [⟨.createTable, m.schema, m.name, some m.name, ""⟩]) :: cmpIdxUq P m.key none (some m))
 
-def tableRemoved (P : Cmp) (objF : ObjDesc → Bool) (c : Tbl) : List Op :=
-  guard objF ⟨some c.name, .table, true, false, c.schema, c.name⟩
-    (cmpIdxUq P objF c.key (some c) none ++ [⟨.dropTable, c.schema, c.name, some c.name, ""⟩])
+def tableRemoved (P : Cmp) (c : Tbl) : TGroup :=
+  let td : ObjDesc := ⟨some c.name, .table, true, false, c.schema, c.name⟩
+  (td, cmpIdxUq P c.key (some c) none ++ [(td, [⟨.dropTable, c.schema, c.name, some c.name, ""⟩])])
 
-def tableExisting (P : Cmp) (objF : ObjDesc → Bool) (c m : Tbl) : List Op :=
-  guard objF ⟨some c.name, .table, false, true, c.schema, c.name⟩
-    (colsAddedAltered P objF c.key c m ++ cmpIdxUq P objF c.key (some c) (some m) ++
-      cmpFks objF c.key c m ++ colsRemoved objF c.key c m)
+def tableExisting (P : Cmp) (c m : Tbl) : TGroup :=
+  (⟨some c.name, .table, false, true, c.schema, c.name⟩,
+    colsAddedAltered P c.key c m ++ cmpIdxUq P c.key (some c) (some m) ++
+      cmpFks c.key c m ++ colsRemoved c.key c m)
 
-/-- `_compare_tables` on the name-filtered reflected side -/
-def diffCore (P : Cmp) (objF : ObjDesc → Bool) (conn md : List Tbl) : List Op :=
-  (md.filter (fun m => !hasKey conn m.key)).flatMap (tableAdded P objF) ++
-  (conn.filter (fun c => !hasKey md c.key)).flatMap (tableRemoved P objF) ++
-  conn.flatMap (fun c =>
+/-- the tables a Python dict / set keyed by `(schema, name)` would hold: one per key -/
+def firstTbls (l : List Tbl) : List Tbl := l.filter (fun t => findTbl l t.key == some t)
+
+/-- the iteration structure of `_compare_tables` on the name-filtered reflected side -/
+def candidates (P : Cmp) (conn md : List Tbl) : List TGroup :=
+  ((firstTbls md).filter (fun m => !hasKey conn m.key)).map (tableAdded P) ++
+  ((firstTbls conn).filter (fun c => !hasKey md c.key)).map (tableRemoved P) ++
+  (firstTbls conn).flatMap (fun c =>
     match findTbl md c.key with
-    | some m => tableExisting P objF c m
+    | some m => [tableExisting P c m]
     | none => [])
+
+def diffCore (P : Cmp) (objF : ObjDesc → Bool) (conn md : List Tbl) : List Op :=
+  runT objF (candidates P conn md)
 
 /-- `_produce_net_changes` with `include_name` = `nameF`, `include_object` = `objF` -/
 def diffF (P : Cmp) (objF : ObjDesc → Bool) (nameF : NameDesc → Bool)
